@@ -262,6 +262,12 @@ func aliasMessage(r *RNG, big bool, salt byte) []byte {
 }
 
 func genAlias(r *RNG, n int, op string, emit func(string)) {
+	if op == "twin" {
+		for i := 0; i < n; i++ {
+			emit(fmt.Sprintf("alias twin seed=%d", r.U32()))
+		}
+		return
+	}
 	if op == "leaf" {
 		for i := 0; i < n; i++ {
 			t := r.Intn(19)
@@ -317,4 +323,73 @@ func init() {
 	executors["alias leaf"] = execAliasLeaf
 	executors["alias hist"] = execAliasHist
 	generators["alias"] = genAlias
+}
+
+// alias twin seed=<n>: two messages that carry byte-identical grouped AVPs are read (from two
+// independent readers); the owner of the second edits its tree in place - replaces members' data,
+// adds to nested groups. The first message is a value of its own: it serialises as before (C06).
+//
+//   alias twin seed=<n> => twin=<same|changed> len=<ok|bad>
+func execAliasTwin(toks []string) string {
+	seedS, _ := kvGet(toks, "seed")
+	seed, _ := strconv.ParseUint(seedS, 10, 64)
+	r := NewRNG(seed)
+	u := func(code, v uint32) *diam.AVP { return diam.NewAVP(code, 0x40, 0, datatype.Unsigned32(v)) }
+	grp := func(code uint32, ms ...*diam.AVP) *diam.AVP { return diam.NewAVP(code, 0x40, 0, &diam.GroupedAVP{AVP: ms}) }
+	var as []*diam.AVP
+	as = append(as, diam.NewAVP(263, 0x40, 0, datatype.UTF8String("twin-session")))
+	for i, n := 0, 1+r.Intn(3); i < n; i++ {
+		switch r.Intn(3) {
+		case 0: // Vendor-Specific-Application-Id
+			as = append(as, grp(260, u(266, 10415), u(258, uint32(16777251+r.Intn(3)))))
+		case 1: // Failed-AVP holding a Vendor-Specific-Application-Id
+			as = append(as, grp(279, grp(260, u(266, uint32(10000+r.Intn(5))), u(259, 3)), u(268, 5012)))
+		default: // Proxy-Info {Proxy-Host, Proxy-State}
+			as = append(as, grp(284, diam.NewAVP(280, 0x40, 0, datatype.DiameterIdentity("proxy.example")), diam.NewAVP(33, 0x40, 0, datatype.OctetString(r.Bytes(4+r.Intn(20))))))
+		}
+	}
+	wire := simpleMsg(272, 0x80, 4, 11, 11, as...)
+	first, err := diam.ReadMessage(bytes.NewReader(wire), dict.Default)
+	if err != nil {
+		return "unreadable"
+	}
+	second, err := diam.ReadMessage(bytes.NewReader(append([]byte(nil), wire...)), dict.Default)
+	if err != nil {
+		return "unreadable"
+	}
+	// the owner of the second message edits it in place
+	var edit func(list []*diam.AVP)
+	edit = func(list []*diam.AVP) {
+		for _, a := range list {
+			if g, ok := a.Data.(*diam.GroupedAVP); ok {
+				edit(g.AVP)
+				g.AddAVP(diam.NewAVP(268, 0x40, 0, datatype.Unsigned32(4999)))
+				continue
+			}
+			switch a.Data.(type) {
+			case datatype.Unsigned32:
+				a.Data = datatype.Unsigned32(0)
+			case datatype.OctetString:
+				a.Data = datatype.OctetString("masked")
+			case datatype.DiameterIdentity:
+				a.Data = datatype.DiameterIdentity("masked.example")
+			}
+		}
+	}
+	guard(func() { edit(second.AVP) })
+	twin, ln := "same", "ok"
+	guard(func() {
+		b, err := first.Serialize()
+		if err != nil || !bytes.Equal(b, wire) {
+			twin = "changed"
+		}
+		if first.Len() != int(first.Header.MessageLength) {
+			ln = "bad"
+		}
+	})
+	return fmt.Sprintf("twin=%s len=%s", twin, ln)
+}
+
+func init() {
+	executors["alias twin"] = execAliasTwin
 }
